@@ -51,7 +51,7 @@ SkipCases(e) == {[k |-> "skip", e |-> e, nkids |-> n, at |-> a, payload |-> p, n
 \* C01 / C02: value classes per parameter type (the literal catalogue; the driver computes the concrete
 \* text, e.g. "max+1" of uint = 65536, and which types it fits - TLC integers are 32 bit)
 IntClasses == {"min-1", "min", "-1", "0", "max", "max+1", "hex0", "hexmax", "hexmax+1", "hexu64max", "hexover", "HEXPREFIX", "plus"}
-FloatClasses == {"0", "-0.0", "0.1", "1e10", "1e-4", "123456000000", "5e-324", "1e999", "-1e999", "hex", "dot1", "1dot", "exp+", "16777217", "0.30000000000000004"}
+FloatClasses == {"0", "-0.0", "0.1", "1e10", "1e-4", "123456000000", "5e-324", "1e999", "-1e999", "hex", "dot1", "1dot", "exp+", "16777217", "0.30000000000000004", "f32exact", "f32exact2", "f32exact_neg"}
 StringClasses == {"empty", "ascii", "esc_quote", "dbl_quote", "esc_apos", "esc_backslash", "esc_n", "esc_r", "esc_t", "backslash_last",
                   "nonbmp", "latin", "slashes", "apos_raw", "unknown_escape"}
 IdentClasses == {"a", "dotted", "underscore", "len1024", "len1025", "digitfirst", "brackets"}
